@@ -167,7 +167,7 @@ def run_tlc(
         shutil.copy(SPEC / cfg_file, cfg)
     else:
         shutil.copy(SPEC / f"{module}.cfg", cfg)
-    jopts = [f"-Xmx{heap}", "-XX:+UseParallelGC"]
+    jopts = [f"-Xmx{heap}", "-Xss64m", "-XX:+UseParallelGC"]
     if depth_first:
         jopts.append("-Dtlc2.tool.queue.IStateQueue=StateDeque")
     cmd = (
@@ -196,7 +196,8 @@ def run_tlc(
     r = TLCResult(p.returncode, out, time.time() - t0)
     r.dir = d
     if r.error or (p.returncode != 0 and not (r.invariant_violated or r.property_violated or r.deadlock)):
-        tail = "\n".join(out.splitlines()[-40:])
+        errs = [l[:300] for l in out.splitlines() if l.startswith("Error:") or "Exception" in l or l.startswith("line ")]
+        tail = "\n".join(errs[:12]) or "\n".join(l[:300] for l in out.splitlines()[-15:])
         raise MachineryError(f"TLC failed on {module} (rc={p.returncode}):\n{tail}")
     return r
 
